@@ -151,6 +151,39 @@ def _task_streams(task):
                                     note=f"first difference at item #{first}: got {str(got[first] if first < len(got) else None)[:200]} "
                                          f"want {str(want[first] if first < len(want) else None)[:200]}")
                 t.nontrivial += len(set(seq)) >= 2
+        # segment reassembly switched on: a LAST packet joins the open group of its APID only when its count follows on (modulo 16384); a
+        # packet that is skipped (a LAST without its FIRST, a LAST after a gap of 1024 / 4096 / 16384 + 1024 packets) changes nothing else
+        mk = framing.mk_packet
+        segs = [mk(b"\x71", apid=4, seqflags=1, seqcount=40), mk(b"\x72", apid=4, seqflags=2, seqcount=41), mk(b"\x73", apid=4, seqflags=2, seqcount=40 + 1025),
+                mk(b"\x74", apid=4, seqflags=2, seqcount=(40 + 4097) % 16384), mk(b"\x75", apid=4, seqflags=1, seqcount=16383), mk(b"\x76", apid=4, seqflags=2, seqcount=0),
+                pal[1]]
+        for n in (1, 2, 3):
+            for seq in itertools.product(range(len(segs)), repeat=n):
+                stream = b"".join(segs[i] for i in seq)
+                open_ = None
+                want = []
+                for i in seq:
+                    p_ = segs[i]
+                    fl, cnt = (p_[2] >> 6) & 3, ((p_[2] & 0x3F) << 8) | p_[3]
+                    if fl == 3:
+                        want.append(p_)
+                    elif fl == 1:
+                        open_ = [(p_, cnt)]
+                    elif open_ is not None and fl == 2:
+                        if (cnt - open_[-1][1]) % 16384 == 1:
+                            want.append(open_[0][0] + p_[6:])
+                        open_ = None
+                with observed_warnings():
+                    try:
+                        got = [bytes(x.raw_data) for x in defn.packet_generator(stream, combine_segmented_packets=True)]
+                    except Exception as e:  # noqa: BLE001
+                        got = [f"raised:{type(e).__name__}".encode()]
+                t.evals += 1
+                t.traces += 1
+                if got != want:
+                    t.violation({"kind": "segment-group-wrong", "n": n}, {"segments": list(seq), "via": task["via"], "combine": True},
+                                expected=[w.hex() for w in want], observed=[g.hex() if isinstance(g, bytes) else g for g in got],
+                                note="with combine_segmented_packets the yielded packets differ from the groups whose counts follow on")
         # a raw packet object from the framer wrapped and parsed several times (header triage first, another definition object, ...)
         from space_packet_parser.packets import CCSDSPacket, ccsds_generator
         for pi, pb in enumerate(pal):
@@ -344,7 +377,8 @@ def run(ctx):
         "traces_validated_against_impl": tally.traces,
         "exhaustive": True,
         "bound": (f"(i) every stream of <= 4 packets over a 9-packet palette ({len(seqs)} streams) x all 8 combinations of parse_bad_pkts / "
-                  "yield_unrecognized_packet_errors / ccsds_headers_only (+ 2 with root_container_name naming a stand-alone container for that call, + 2 headers-only runs with combine_segmented_packets) "
+                  "yield_unrecognized_packet_errors / ccsds_headers_only (+ 2 with root_container_name naming a stand-alone container for that call, + 2 headers-only runs with combine_segmented_packets; "
+                  "every stream of <= 3 packets over FIRST/LAST segments whose counts follow on or differ by 1025 / 4097 / wrap, with combine_segmented_packets) "
                   "vs. per-packet solo results on fresh definitions; (ii) k=2: every ordered pair of 7 generators "
                   "(two with combine_segmented_packets, one over a scripted socket, one with a per-call root container) x ALL lattice-path interleavings of their next() calls up to exhaustion, and one generator abandoned (closed, or dropped and collected) after every number of items while the other runs on; "
                   f"k=3: {len(triples)} triples with <= {2 if ctx.quick else 3} steps each, all interleavings; (iii) definition canon + written XML unchanged; "
